@@ -23,6 +23,9 @@ func NewCache() Cache {
 }
 
 func (c Cache) Get(fn string, args []object.Object) (object.Object, []byte, bool) {
+	if verifCacheOff() {
+		return nil, nil, false
+	}
 	if len(args) > MaxArgs {
 		return nil, nil, false
 	}
@@ -35,10 +38,16 @@ func (c Cache) Get(fn string, args []object.Object) (object.Object, []byte, bool
 		key.Args[i] = v
 	}
 	result, ok := c[key]
+	if ok {
+		verifCacheHit()
+	}
 	return result.Result, result.Output, ok
 }
 
 func (c Cache) Set(fn string, args []object.Object, result object.Object, output []byte) {
+	if verifCacheOff() {
+		return
+	}
 	if len(args) > MaxArgs {
 		return
 	}
